@@ -21,6 +21,8 @@ var c15FirstUse = []prog{
 	{"first-begin-begin", "b01.r0|b12.r1"},
 	{"first-create-keys", "Ca|K"},
 	{"first-delete-begin-set", "Da|b01.s0a.c0|Sb"},
+	{"two-roots-set-set", "I:Sc|Sa|Sb;r=2"},
+	{"two-roots-create-set-two-workers", "I:Sc|Ca|Sb.Ga;r=2;w=2"},
 }
 
 func c15(tier string) int {
